@@ -153,21 +153,22 @@ theorem toIsoAll_plain (t : Nat) : AllPlain (toIsoAll t) := by
     (s1 _ (by decide))).append (d2 _)).append (s1 _ (by decide))).append (d2 _)).append (s1 _ (by decide))).append
     (d2 _)).append (s1 _ (by decide)))
 
+theorem rTimestampStrict_of (s : Bytes) (x : Int) (h : parseTimestampNow s = .ok (x, [])) :
+    rTimestampStrict s = .ok (toU32 x) := by
+  unfold rTimestampStrict; rw [h]; rfl
+
+theorem rTimestamp_of (s : Bytes) (x : Nat) (h : timestampNow s = .ok x) : rTimestamp s = .ok x := by
+  unfold rTimestamp; rw [h]; rfl
+
 theorem rTimestampStrict_toIsoAll (t : Nat) (ht : t < 4294967296) : rTimestampStrict (toIsoAll t) = .ok t := by
   have := (ts_roundtrip_fixed true true t ht []).1
   rw [List.append_nil] at this
-  have e : parseTimestampNow (toIsoAll t) = .ok ((t : Int), []) := this
-  unfold rTimestampStrict
-  rw [e]
-  simp [peek, toU32_of_lt t ht]
+  rw [rTimestampStrict_of _ _ this, toU32_of_lt t ht]
 
 theorem rTimestamp_toIsoAll (t : Nat) (ht : t < 4294967296) : rTimestamp (toIsoAll t) = .ok t := by
   have := (ts_roundtrip_fixed true true t ht []).2
   rw [List.append_nil] at this
-  have e : timestampNow (toIsoAll t) = .ok t := this
-  unfold rTimestamp
-  rw [e]
-  rfl
+  exact rTimestamp_of _ _ this
 
 theorem formatCoord_plain (v : Int) (h1 : int32Min ≤ v) (h2 : v ≤ int32Max) : AllPlain (formatCoord v) :=
   allPlain_of_num (OplFmt.formatCoord_shape v h1 h2).2
